@@ -76,7 +76,8 @@ def run_one(params, with_dups):
     for i in range(nticks):
         k.at(T0 + i * step, sv.tick)
     for _ in range(params["nup"]):
-        f = frame(V.tun_ip, "10.9.0.1", trng.choice([40, 100, 300, 600]), trng.choice(["random", "text"]))
+        sizes = [32, 36, 40, 48] if params.get("many_small_up") else [40, 100, 300, 600]
+        f = frame(V.tun_ip, "10.9.0.1", trng.choice(sizes), trng.choice(["random", "text"]))
         k.at(T0 + trng.randrange(nticks * step) + 17, sv.frames.append, f)
     tdown = T0 + 13
     for _ in range(params["ndown"]):
@@ -379,6 +380,11 @@ def run(ctx):
                       "check_ip_off": rng.random() < 0.3, "step": rng.choice([40000, 100000, 250000]),
                       "nticks": rng.randint(80, 160), "nup": rng.randint(1, 6), "ndown": rng.randint(1, 7),
                       "ndup": rng.randint(5, 60), "pending_case": rng.random() < 0.25})
+        if i % 4 == 3:
+            # many single-fragment upstream packets: copies of data queries that are several *packets* old but still
+            # inside the 15-entry data fingerprint window
+            plist[-1].update(many_small_up=True, nup=rng.randint(12, 30), up="Base32" if rng.random() < 0.7 else plist[-1]["up"],
+                             ndup=rng.randint(30, 80))
     if ctx.replay:
         plist = [ctx.replay["witness"]["params"]]
     res.min_evaluations = 0 if ctx.replay else 1500
